@@ -20,6 +20,7 @@ Decided:
 Not decided: lark's LALR engine; lexing corner cases (comments inside expressions, escaped
 identifiers with unusual characters); netlists outside the families.
 """
+import ast
 import itertools
 
 from ..core import AnalysisError
@@ -172,7 +173,11 @@ def run(chk):
     lark = load_lark(repo.grammar_text)
     rule_names = {str(r.origin.name) for r in lark.rules}
     cls = repo.cls(FILE, "_VerilogCircuitGraphTransformer")
-    helpers = {"add_node", "add_blackbox", "warn", "check_for_warnings", "__init__"}
+    # helpers - as opposed to callbacks lark calls by rule name - are the methods the class itself reaches through `self.<name>`
+    # and the ones that are not plain methods (properties, static / class methods)
+    helpers = {"__init__"} | {n.attr for n in ast.walk(cls.node if hasattr(cls, "node") else cls) if isinstance(n, ast.Attribute) and isinstance(n.value, ast.Name) and n.value.id == "self"}
+    helpers |= {m.node.name for m in repo.methods(FILE, "_VerilogCircuitGraphTransformer")
+                if any(ast.unparse(d).split(".")[-1] in ("property", "staticmethod", "classmethod", "cached_property", "setter") for d in m.node.decorator_list)}
     callbacks = [m for m in repo.methods(FILE, "_VerilogCircuitGraphTransformer") if m.node.name not in helpers and not m.node.name.startswith("_")]
     for m in callbacks:
         chk.ob("C02.G.callback-names-a-rule", f"{m.node.name}", m.node.name in rule_names, file=FILE, func=m.qual, line=m.node.lineno,
@@ -310,6 +315,8 @@ def run(chk):
         "input not in port list": module_text(["a", "b"], ["o"], [], ["assign o = a & b;"], ports=["a", "o"]),
         "output not in port list": module_text(["a", "b"], ["o", "p"], [], ["assign o = a & b;", "assign p = a;"], ports=["a", "b", "o"]),
         "port never declared": module_text(["a", "b"], ["o"], [], ["assign o = a & b;"], ports=["a", "b", "o", "z"]),
+        "port declared only as a wire": module_text(["a", "b"], ["o"], ["w"], ["assign w = a | b;", "assign o = a & b;"], ports=["a", "b", "w", "o"]),
+        "port declared as a wire and driven, declarations last": "module m (a, w, o);\n  assign w = ~a;\n  assign o = w;\n  wire w;\n  output o;\n  input a;\nendmodule\n",
     }
     for name, text in rej.items():
         n_parse += 1
